@@ -604,6 +604,17 @@ func (sc *specCtx) call(e *ast.CallExpr) Value {
 			sc.errf(e, "fresh() without pre-state")
 		}
 		return mBool(And(Lt(sc.old.clock(), v.C[0]), Le(v.C[0], sc.st.clock())))
+	case "allocated":
+		// the reference was allocated before now
+		v := sc.evalInt(arg(0))
+		return mBool(Le(v, sc.st.clock()))
+	case "fresh_ref":
+		// an integer reference allocated during the call
+		v := sc.evalInt(arg(0))
+		if sc.old == nil {
+			sc.errf(e, "fresh_ref() without pre-state")
+		}
+		return mBool(And(Lt(sc.old.clock(), v), Le(v, sc.st.clock())))
 	case "unchanged":
 		c := *sc
 		c.st = sc.old
@@ -670,6 +681,8 @@ func (sc *specCtx) call(e *ast.CallExpr) Value {
 		for j, c := range comps {
 			out.C[j] = Select(Select(sc.st.region("chan.q."+typeName(et)+c.Suffix, SArr(SArr(c.Sort))), v.C[0]), Add(head, i))
 		}
+		// queued references were allocated before now
+		x.assumeTrue(x.refsBelowClock(sc.st, out))
 		return out
 	case "has", "at":
 		// map membership and value
@@ -705,6 +718,9 @@ func (sc *specCtx) call(e *ast.CallExpr) Value {
 		v := sc.eval(arg(1))
 		v.T = t
 		return x.makeInterface(sc.st, v, types.NewInterfaceType(nil, nil))
+	case "perr":
+		// the error is (or wraps) one returned by the Persistence
+		return mBool(App("perr", SBool, sc.eval(arg(0)).C[0]))
 	case "foreign":
 		// the dynamic type of the value is defined outside the module (or the value is nil)
 		v := sc.eval(arg(0))
@@ -716,6 +732,11 @@ func (sc *specCtx) call(e *ast.CallExpr) Value {
 		tb := sc.bound("t")
 		noMatch := Forall([]*Term{tb}, Implies(App("pkgerr", SBool, tb), Not(App("Is", SBool, v.C[0], tb))), App("Is", SBool, v.C[0], tb))
 		return mBool(Or(Eq(v.C[0], Num(0)), And(Lt(App("dyntype", SInt, v.C[0]), Num(0)), Not(App("pkgerr", SBool, v.C[0])), noMatch)))
+	case "as":
+		// as(err, T): errors.As would find a T in err's chain
+		v := sc.eval(arg(0))
+		t := sc.typeExpr(arg(1))
+		return mBool(And(Ne(v.C[0], Num(0)), App("AsT", SBool, v.C[0], Num(typeID(t)))))
 	case "hastype":
 		v := sc.eval(arg(0))
 		t := sc.typeExpr(arg(1))
